@@ -83,7 +83,7 @@ class Planner:
             "explicit_opt": r.random() < 0.3,
             "filter": r.random() < 0.3,
             "qinput": r.random() < 0.3,
-            "lead_ranks": subset(r, [1, 2, 3], 0.5) + ([0] if (r.random() < 0.12 and prop in ("C08", "C09", "C13")) else []),
+            "lead_ranks": subset(r, [1, 2, 3], 0.5) + ([0] if (r.random() < 0.12 and prop in ("C08", "C09", "C11", "C13")) else []),
             "shared": r.random() < 0.08 and prop == "C08",
         }
         for k, v in (cfg.get("force") or {}).items():
@@ -275,6 +275,8 @@ class Planner:
             return copy.deepcopy(r.choice(a.inputs))
         if a.family == "cnn":
             lead = [r.choice([1, 2, 3])]
+            if 0 in self.sw["lead_ranks"] and r.random() < 0.5:
+                lead = []  # un-batched (C, H, W) input
         else:
             rank = r.choice(self.sw["lead_ranks"])
             lead = [r.choice([1, 2, 3, 4, 17]) if i == 0 else r.choice([1, 2, 3]) for i in range(rank)]
